@@ -6,7 +6,7 @@ VERIF = os.path.dirname(os.path.dirname(os.path.abspath(__file__)))
 
 P = {
  "C01": ("O2 reference machine (pickletools.dis semantics) over every returned pickle; CPython dis differential",
-         "Every pickle of the safe configuration matrix (128 mutator subsets x 6 protocols enumerated; ranges, rates, opt-in flags, both entropy modes drawn), every opcode-choice sequence up to a fixed depth (fuzzer-bytes steering) 45k+ opcode pickles, recipe-steered alias-heavy pickles, a deep-state block (one opcode chosen greedily for 4 200..20 500 steps: thousands of pending MARKs / stack entries / memo entries when the collapse tail starts), generators reused after earlier pickles (five hand-over styles incl. public-field writes) and files written by the built CLI (single and batch mode) are executed on an independent flat reference machine; a sample plus every flagged pickle is re-judged by CPython pickletools.dis. Exploration is the right level: the property is a universal statement over an unbounded input/config space whose failures need specific opcode interleavings, which a monitor over many real executions reaches and a finite run cannot prove.",
+         "Every pickle of the safe configuration matrix (128 mutator subsets x 6 protocols enumerated; ranges, rates, opt-in flags, both entropy modes drawn), every opcode-choice sequence up to a fixed depth (fuzzer-bytes steering) 45k+ opcode pickles, recipe-steered alias-heavy pickles, a deep-state block (one opcode chosen greedily for 4 200..20 500 steps: thousands of pending MARKs / stack entries / memo entries when the collapse tail starts), generators reused after earlier pickles (five hand-over styles incl. public-field writes; earlier pickles of up to 9 500 opcodes, or a giant one with 30 000 pending MARKs / memo entries), generators constructed seven ways (Generator::new in three builder orders, Generator::default(), built for another protocol and retargeted through state.version) and files written by the built CLI (single and batch mode) are executed on an independent flat reference machine; a sample plus every flagged pickle is re-judged by CPython pickletools.dis. Exploration is the right level: the property is a universal statement over an unbounded input/config space whose failures need specific opcode interleavings, which a monitor over many real executions reaches and a finite run cannot prove.",
          "5.C01"),
  "C02": ("O2 memo model over returned pickles incl. >256-entry memos; CPython dis differential",
          "Memo rules (GET defined, PUT fresh, no PUT on MARK/empty) are replayed on every output of the safe matrix plus long 3000..6000-opcode pickles with OffByOne/MemoIndex(safe) at rate 1.0/0.5, so that memos exceed 256 entries and mutated indices miss, plus the deep-state block (up to 20 500 memo entries, thorough 40 000), reused generators and CLI-produced files; evidence counts GET/PUT executions, >256-entry pickles and BINPUTs issued past entry 256.",
@@ -24,10 +24,10 @@ P = {
          "FRAME count, offset and length are re-derived from the final bytes for the full matrix incl. unsafe TypeConfusion at rate 1 (rewrites after emission), with evidence of how many framed outputs and rewrites were seen.",
          "5.C06"),
  "C07": ("byte equality of repeated executions across instances, 16 threads with perturbed schedules, separate processes with permuted histories, isolated single-case processes, rayon widths",
-         "Equal (config, entropy) cases are generated on the main thread twice, on 16 concurrent threads in shuffled orders with random yields, in >= 8 separately spawned processes (fresh ASLR/hash seeds, different TZ/cwd) and through the CLI batch mode under RAYON_NUM_THREADS 1/2/3/16; full bytes are compared. Thorough adds a ThreadSanitizer build of the threaded workload.",
+         "Equal (config, entropy) cases are generated on the main thread twice, on 16 concurrent threads in shuffled orders with random yields, in >= 8 separately spawned processes (fresh ASLR/hash seeds, different TZ/cwd) and through the CLI batch mode under RAYON_NUM_THREADS 1/2/3/16; full bytes are compared. Half of the cases are recipe-steered pickles (containers with several members of different kinds under typed opcodes, aliases, memo round trips), where a decision that iterates a hash-ordered or address-keyed container would show. Thorough adds a ThreadSanitizer build of the threaded workload.",
          "5.C07"),
  "C08": ("history replay against a fresh generator (Rust API and Python PickleMutator)",
-         "Every history of length <= 3 over {generate, generate_from_arbitrary(x0|x1), reset} and sampled longer ones, on configurations of all protocols; every generation call is compared byte-for-byte with a fresh generator given only that call; the Python PickleMutator.mutate path is exercised against the built extension.",
+         "Every history of length <= 3 over {generate, generate_from_arbitrary(x0|x1), reset} and sampled longer ones, on configurations of all protocols; every generation call is compared byte-for-byte with a fresh generator given only that call; histories also contain writes to the public configuration fields between calls (the fresh generator gets the same writes) and inputs followed by an extension or truncation of themselves; the Python PickleMutator.mutate path is exercised against the built extension.",
          "5.C08"),
  "C09": ("catch_unwind + Err/empty monitor + hook step bound + per-call CPU work bound + child-process exit status over exhaustive short inputs, periodic inputs and hostile configs",
          "All 65 793 byte strings of length <= 2 x 6 protocols x a configuration set (exhaustive sub-space), every two-byte pattern repeated to 1000 bytes at 400 opcodes, the full matrix with NaN/out-of-range rates, and child-process cases (20k+ opcodes, TUPLE1 chains on a 2 MiB stack, 8 KiB inputs, hostile buffer sizes), and the deep-state block (each of MARK, DUP, pushes, memo writers, APPEND, TUPLE.. chosen greedily for 4 200 and 20 500 steps per protocol, opcode cycles, and the same inputs cut to 8 KiB on a 2 MiB thread in child processes). Generators are constructed five ways (three builder-call orders on Generator::new, two from Generator::default() with the protocol written through the public state field). 'Never loops forever' is decided as a bound on emitted opcodes and on the CPU time consumed by the generating thread (>= 60x the slowest generation observed); a wall-clock watchdog firing is inconclusive. Thorough adds ASan, valgrind memcheck and a debug-build run.",
@@ -39,25 +39,25 @@ P = {
          "T, the number of choices/emissions, one-opcode-per-body-step, tail length <= 2T+1 and the total bound are checked per execution over an 18-point (min,max) grid incl. equal/inverted/zero, all mutator subsets safe and unsafe, both entropy modes, three builder-call orders, plus the deep-state block (tail bound with thousands of pending MARKs).",
          "5.C11"),
  "C12": ("union of decoded opcode sets over a fixed seed block (existential witnesses per (protocol, opcode))",
-         "Default-settings generations for seeds [0,N) per protocol (plus flags-on block for EXT*/buffer) must together contain every opcode of the CPython table with proto <= P, and framed and unframed outputs for P >= 4; evidence lists the witness seed and count per pair. A single-threaded ascending-protocol prelude and a CLI layer (flag combinations in single and batch mode must keep the enabled opcodes alive) are included.",
+         "Default-settings generations for seeds [0,N) per protocol (plus flags-on block for EXT*/buffer) must together contain every opcode of the CPython table with proto <= P, and framed and unframed outputs for P >= 4; evidence lists the witness seed and count per pair. A single-threaded ascending-protocol prelude and a CLI layer (flag combinations in single and batch mode must keep the enabled opcodes alive) are included, as are CLI runs with --seed alone (protocol derived by the tool: every protocol, and 4/5 both framed and unframed, must come up).",
          "5.C12"),
  "C13": ("byte comparison of CLI / batch / action wrapper / Python bindings against the library via an independent option mapping",
          "The built binary, scripts/action-run.sh and the built _native extension are driven over an option matrix; every produced file / returned value is compared with library bytes for the independently mapped configuration; batch file sets, exit statuses and injected write faults (before the first write, mid-batch, exactly 256 failures), overwriting of older longer files, odd cwd / locale / environment are checked.",
          "5.C13"),
  "C14": ("per-thread counting allocator: live heap before Generator::new vs after drop, reproducible x3; long reuse histories; equal live heap after 1/4/10 passes over a fixed cycle; mallinfo2 probe of the Python layer",
-         "Exact live-bytes/blocks deltas for every case of the full matrix under three lifecycles, alias-heavy and recipe-steered pickles (memo aliases, NaN containers), the deep-state block, long generate/reset histories, and 14 500 generations whose configuration values (ranges incl. inverted, seeds, rates, buffer sizes) are new every time (live heap read after 500/2 500/6 500/14 500 with no generator alive); coverage shows how many analysed outputs contained aliasing insertions / identity cycles. Thorough adds LeakSanitizer and valgrind memcheck as second opinions.",
+         "Exact live-bytes/blocks deltas for every case of the full matrix under three lifecycles, alias-heavy and recipe-steered pickles (memo aliases, NaN containers), the deep-state block, long generate/reset histories, and 14 500 generations whose configuration values (ranges incl. inverted, seeds, rates, buffer sizes) are new every time (live heap read after 500/2 500/6 500/14 500 with no generator alive), and 4 000 generations WITHOUT a seed; coverage shows how many analysed outputs contained aliasing insertions / identity cycles. Thorough adds LeakSanitizer and valgrind memcheck as second opinions.",
          "5.C14"),
  "C15": ("hook Draw/Mutated/Rewrite events at rate 0 and 1 + direct calls of every mutator on hostile entropy",
          "In-generation: at rate 0 no Mutated/Rewrite event may occur, at rate 1 every Draw must be followed by a Mutated from the first applicable mutator (all 128 subsets, permuted lists, both entropy modes incl. hostile doubles; a quarter of the cases create the mutator objects with the opposite unsafe flag from the generator's own). Direct: every mutator method on harness-built sources (NaN/inf/negative/huge leading doubles, exhausted input).",
          "5.C15"),
  "C16": ("contract predicates on direct mutator calls over boundary-exhaustive value grids and real emission snapshots",
-         "Every Mutator method is called over i32/i64 boundaries (exhaustive) plus samples, strings/bytes of 0..64 items incl. multi-byte, memo indices incl. 0 and usize::MAX, both entropy sources incl. exhausted input, every value of the first byte a mutation draws, and for 16 boundary memo indices all 65 536 values of the two draw bytes; TypeConfusion on snapshots cut from real generations and synthetic deltas for all 256 opcode bytes.",
+         "Every Mutator method is called over i32/i64 boundaries (exhaustive) plus samples, strings/bytes of 0..64 items incl. multi-byte, memo indices incl. 0 and usize::MAX, both entropy sources incl. exhausted input, every value of the first byte a mutation draws, and for 16 boundary memo indices all 65 536 values of the two draw bytes; TypeConfusion on snapshots cut from real generations and synthetic deltas for all 256 opcode bytes, also with a buffer tail that an earlier mutator has already replaced (stale snapshot).",
          "5.C16"),
  "C17": ("offline checker: per-emission hook snapshots vs O2 run on output[..len]",
          "After every emission the simulated stack depth, MARK positions, slot kinds and memo keys are compared with the reference machine over the safe matrix, exhaustive decision-tree prefixes, abstract-state BFS, object-heavy recipes, 5000+ opcode pickles and the deep-state block; evidence counts snapshots compared and distinct (state, opcode) transitions.",
          "5.C17"),
  "C18": ("range predicates on direct EntropySource calls; all byte strings of length <= 2 exhaustively",
-         "Every EntropySource method over an 18-point argument grid (all pairs) on all 65 793 byte strings of length <= 2 (exhaustive), random longer strings and PRNG states; fallbacks after exhaustion must be the documented fixed values and deterministic.",
+         "Every EntropySource method over an 18-point argument grid (all pairs) on all 65 793 byte strings of length <= 2 (exhaustive), random longer strings, constant fills of length 3..24, concatenations of 4-byte boundary words and PRNG states; fallbacks after exhaustion must be the documented fixed values and deterministic.",
          "5.C18"),
 }
 
